@@ -18,4 +18,5 @@ INVARIANT GateInv
 INVARIANT LookupSound
 PROPERTY RefusedKeepsRows
 PROPERTY GivenVersionFixed
+PROPERTY CopyFaithful
 CHECK_DEADLOCK FALSE
